@@ -171,16 +171,17 @@ class RealConn(object):
     def peek(self):
         c = self.conn
         wm = getattr(c, '_inbound_flow_control_window_manager', None)
-        return 'st=%d,%d,%s,%d,%d,%d,%s,%s,%d,%d,%d,%d' % (
+        return 'st=%d,%d,%s,%d,%d,%d,%s,%s,%d,%d,%d,%d,%s' % (
             len(c.streams), len(getattr(c, '_closed_streams', ())), c.state_machine.state.name,
             c.highest_inbound_stream_id, c.highest_outbound_stream_id,
             c.outbound_flow_control_window,
             opt(getattr(wm, 'current_window_size', None)), opt(getattr(wm, 'max_window_size', None)),
             c.max_outbound_frame_size, c.max_inbound_frame_size,
-            len(c.incoming_buffer.data), len(c.incoming_buffer._headers_buffer)) + ' | ss=' + self.peek_streams()
+            len(c.incoming_buffer.data), len(c.incoming_buffer._headers_buffer),
+            opt(getattr(wm, '_bytes_processed', None))) + ' | ss=' + self.peek_streams()
 
     def peek_streams(self):
-        """per stream (dict order): sid:state:closed_by:out_win:in_win:in_max:flags:expected_len:actual_len"""
+        """per stream (dict order): sid:state:closed_by:out_win:in_win:in_max:flags:expected_len:actual_len:in_processed"""
         out = []
         try:
             for sid, st in self.conn.streams.items():
@@ -188,10 +189,10 @@ class RealConn(object):
                 wm = st._inbound_window_manager
                 fl = ''.join('1' if x else '0' for x in (sm.headers_sent, sm.trailers_sent, sm.headers_received, sm.trailers_received))
                 fl += {True: 'T', False: 'F', None: '-'}[sm.client]
-                out.append('%d:%s:%s:%d:%d:%d:%s:%s:%d' % (
+                out.append('%d:%s:%s:%d:%d:%d:%s:%s:%d:%d' % (
                     sid, sm.state.name, sm.stream_closed_by.name if sm.stream_closed_by is not None else '-',
                     st.outbound_flow_control_window, wm.current_window_size, wm.max_window_size, fl,
-                    opt(st._expected_content_length), st._actual_content_length))
+                    opt(st._expected_content_length), st._actual_content_length, wm._bytes_processed))
         except AttributeError:
             return '?'
         return ';'.join(out) or '.'
@@ -210,6 +211,7 @@ class RealConn(object):
         wm = c._inbound_flow_control_window_manager
         return {'state': c.state_machine.state.name, 'streams': streams,
                 'out_win': c.outbound_flow_control_window, 'in_win': wm.current_window_size, 'in_max': wm.max_window_size,
+                'in_processed': getattr(wm, '_bytes_processed', 0),
                 'max_out': c.max_outbound_frame_size, 'max_in': c.max_inbound_frame_size,
                 'hi_in': c.highest_inbound_stream_id, 'hi_out': c.highest_outbound_stream_id,
                 'closed': dict((k, (v.name if v is not None else None)) for k, v in c._closed_streams.items()) if len(c._closed_streams) < 64 else None,
